@@ -295,4 +295,75 @@ Section Striping.
         intros x. symmetry. apply (pend_setv_same a t v' Hp' Hp x).
   Qed.
 
+
+  (** *** annotated trace bookkeeping *)
+  Lemma lp_ext (atr : list (aev ISet)) c e c' :
+    lp_run lp_init atr = Some c -> lp_step c e = Some c' -> lp_run lp_init (atr ++ [e]) = Some c'.
+  Proof. intros H1 H2. rewrite lp_run_app, H1. cbn. now rewrite H2. Qed.
+
+  Lemma st_setv (st : nat -> status ISet) a t v' x :
+    (forall t0, st t0 = v_op (a_view a t0)) -> v_op v' = x ->
+    forall t0, Lin.upd st t x t0 = v_op (a_view (setv a t v') t0).
+  Proof.
+    intros H Hx t0. unfold Lin.upd. destruct (Nat.eqb_spec t0 t) as [->|Hn].
+    - now rewrite setv_same.
+    - rewrite setv_other by exact Hn. apply H.
+  Qed.
+
+  (** only the views of thread t change, its lock state stays: the lock part of the invariant is unaffected *)
+  Lemma lk_setv_keep a t v' : v_lk v' = lk a t -> forall t0, lk (setv a t v') t0 = lk a t0.
+  Proof. intros H t0. destruct (Nat.eq_dec t0 t) as [->|Hn]; [now rewrite lk_setv_same|now rewrite lk_setv_other]. Qed.
+
+  (** *** the linearization point of a cell operation: the bucket operation under the cell lock *)
+  Lemma Inv_bucket_op g a tr t bo k :
+    Inv g a tr ->
+    v_op (a_view a t) = Pending (iop_of_bop bo k t : Op ISet) ->
+    holds (lk a t) (hfun hm k mod nl) -> pend_of (lk a t) = [] ->
+    let b := hfun hm k mod S (mask g) in
+    let r := bucket_apply bo k t (get_b (buckets g) b) in
+    let nb := fst (fst r) in let r1 := snd (fst r) in let r2 := snd r in
+    let v := a_view a t in
+    let v' := mkTV (Linearized (iop_of_bop bo k t : Op ISet) (res_of_bop bo r1 r2 : Res ISet)) (v_lk v) (v_mask v)
+                   (fun b' => if Nat.eqb b' b then nb else v_reg v b') in
+    Inv (set_buckets g (set_nth_b (buckets g) b nb))
+        (seta (setv a t v') (a_atr a ++ [ALin t]))
+        (tr ++ Conc.tag t [EvAcc KLd o_mask true]).
+  Proof.
+    intros Hi Hop Hh Hp b r nb r1 r2 v v'. pose proof Hi as [I1 I2 I3 I4 I5 I6 I7 I8].
+    assert (Hr : bucket_apply bo k t (get_b (buckets g) b) = (nb, r1, r2)) by (subst nb r1 r2 r; now destruct (bucket_apply _ _ _ _) as [[? ?] ?]).
+    assert (Hkeep : forall t0, lk (seta (setv a t v') (a_atr a ++ [ALin t])) t0 = lk a t0).
+    { intros t0. change (lk (setv a t v') t0 = lk a t0). apply lk_setv_keep. reflexivity. }
+    destruct I7 as (e & He & Hdiv).
+    assert (Hstripe : b mod nl = hfun hm k mod nl) by (subst b; rewrite Hdiv; apply stripe_of_bucket; auto).
+    assert (Hblt : b < List.length (buckets g)).
+    { destruct I6 as (Hlen & _). rewrite Hlen. subst b. apply Nat.mod_upper_bound. lia. }
+    assert (Hnp : nopend_all a) by (eapply holder_no_move; eauto).
+    destruct I8 as (s & st & H1 & H2 & H3 & H4).
+    assert (Ha : absrel s (buckets g) nopend).
+    { eapply absrel_ext; [|exact H4]. intros x. split; [|intros []]. intros (t0 & H). rewrite Hnp in H. destruct H. }
+    destruct (bucket_apply_abs hm (mask g) (buckets g) s bo k t nb r1 r2 I6 Ha Hr) as (R1 & R2 & R3). fold b in R2, R3.
+    constructor.
+    - intros i Hl. setoid_rewrite Hkeep. apply I1; auto.
+    - intros t1 t2 i. rewrite !Hkeep. apply I2.
+    - intros i t0. rewrite Hkeep. rewrite tholder_snoc. cbn [hstep o_mask]. apply I3.
+    - intros t0 i. rewrite Hkeep. intros H. cbn [mask set_buckets a_view seta].
+      destruct (Nat.eq_dec t0 t) as [->|Hn]; [rewrite setv_same; cbn; eauto|rewrite setv_other by exact Hn; eauto].
+    - intros t0 b'. rewrite Hkeep. intros H. cbn [buckets set_buckets a_view seta].
+      destruct (Nat.eq_dec t0 t) as [->|Hn].
+      + rewrite setv_same. cbn [v_reg v']. destruct (Nat.eqb_spec b' b) as [->|Hne].
+        * now apply get_set_same.
+        * rewrite get_set_other by auto. now apply I5.
+      + rewrite setv_other by exact Hn. rewrite get_set_other; [now apply I5|].
+        intros ->. apply Hn. eapply I2; [exact H|]. rewrite Hstripe. exact Hh.
+    - exact R2.
+    - exists e. auto.
+    - exists (fst (istep s (iop_of_bop bo k t))), (Lin.upd st t (Linearized (iop_of_bop bo k t : Op ISet) (snd (istep s (iop_of_bop bo k t))))).
+      split; [|split; [|split]].
+      + cbn [a_atr seta]. eapply lp_ext; [exact H1|]. cbn [lp_step]. rewrite H3, Hop. reflexivity.
+      + cbn [a_atr seta]. rewrite erase_app, hist_of_acc. cbn. now rewrite app_nil_r.
+      + cbn [a_view seta]. apply st_setv; auto. cbn. now rewrite R1.
+      + cbn [buckets set_buckets]. eapply absrel_ext; [|exact R3].
+        intros x. split; [intros []|]. intros (t0 & H). rewrite Hkeep, Hnp in H. destruct H.
+  Qed.
+
 End Striping.
